@@ -1,21 +1,25 @@
 """C18 — region extraction and capture analysis are exact (DESIGN.md section 5, C18).
 
 Correspondence (model `IrVerif.Extract`, driver commands extract.*):
-  * `onnx_ir.convenience.extract` on graphs / functions / views / nested graphs x cuts (by object and by
-    name) vs `extract` of the model: raised-or-not (+ exception class), inputs, outputs, node list (order),
-    initializer set of the result;
+  * `onnx_ir.convenience.extract` on graphs / functions (with and without initializers) / views / nested graphs
+    x cuts (by object and by name) vs `extract` of the model: raised-or-not, which raise statement, inputs,
+    outputs, node list (order), initializer set, rewired boundary inputs of the result;
   * `_find_subgraph_bounded_by_values` directly (arbitrary parent graph) vs `findSubgraph`;
   * `_collect_all_external_values` vs `externalValues`; `create_value_mapping(include_subgraphs=False)` vs
     `valueMapping`; `analyze_implicit_usage` vs `analyze`.
 The model's world is *observed from the real objects* (names, producer(), .graph, is_initializer(), node
-inputs/outputs/graph attributes), never taken from the generator's description.
+inputs/outputs/graph attributes), never taken from the generator's description.  The driver also evaluates the
+decidable hypotheses of the theorems on every case (histogram keys hyp_*).
 
-Property oracle (independent of the model, on the real objects): a brute-force least fixed point gives the
-needed values/nodes/initializers and whether a required value is uncovered; the result must have exactly
-those nodes in the original order, exactly those initializers, share no object with the source, be
-structurally the source's nodes, and — for the evaluable op set — `onnx.reference.ReferenceEvaluator` on
-the extracted graph fed with the source's values at the boundary inputs must return the source's values at
-the outputs (bit patterns).  Implicit usage is compared with a brute-force free-variable computation.
+Property oracle (independent of the model, on the real objects): a brute-force least fixed point from a
+structural reading (no back pointers) gives the needed values/nodes/initializers and whether a required value
+is uncovered; the result must have exactly those nodes in the original order, exactly those initializers,
+share no object with the source (extended identity walk), be structurally the source's nodes, never make a
+consumer read a recomputed boundary input, pass onnx.checker when the source does, and — for the evaluable op
+set — `onnx.reference.ReferenceEvaluator` on the extracted graph must return the source's values at the
+outputs (two input assignments) and the region's function of its inputs under perturbed boundary values
+(independent interpreter).  The region search alone is checked on sorted and unsorted sources.  Implicit usage
+is compared with a brute-force free-variable computation.
 """
 from __future__ import annotations
 
@@ -53,23 +57,33 @@ ASSUMPTIONS = [
     "model); the theorems characterise the visited node/value/initializer sets exactly, so the result does "
     "not depend on that order; visited_values is internal state (C18_values_exact) and is tied to the code "
     "only through the results it determines",
-    "the model transcribes the code after the fix: commits for D34 (analyze_implicit_usage skips the analysed "
-    "root when walking the graph stack) and D47 (_collect_all_external_values collects every value captured "
-    "from outside the nested graph, not only values of parent_graph)",
-    "the clone of the view is modelled only as far as it decides raised/ok (keys of the cloner's value map); "
-    "that the clone is a faithful, fresh, closed copy is property C13 and is checked here by the oracle only "
-    "(differential: identity sets disjoint, node-by-node structural equality)",
-    "a GraphView passed as graph-like has no duplicate nodes; initializer names are unique; boundary values "
-    "given by object to a view are not values defined inside a nested graph",
-    "C18_eval assumes a topologically sorted, single-assignment source whose producer() pointers agree with "
-    "the nodes' output lists (SourceOK), interpretations that read only a node's inputs and captured values "
-    "(Local), and that every required value without a producer is an initializer (hcov, discharged from the "
-    "success of validation + clone by C18_cover_of_clone under a scoping hypothesis)",
+    "the model transcribes the code after the fix: commits D34 (analyze_implicit_usage skips the analysed "
+    "root), D47 (_collect_all_external_values collects every value captured from outside the nested graph), "
+    "D152 (reference attributes of graph type hold no graph: observed as 'no body') and D153 (a boundary input "
+    "that an extracted node produces again is rewired to the graph input: `rewired`, compared with the result)",
+    "structural notions (FreeOf, DefInG, lexical free variables of the semantics) are independent of the "
+    "`.graph` back pointers; the theorems that relate them to the code assume consistent back pointers "
+    "(BackPtrOK), closed and well scoped nested graphs (BodiesOK), a single-assignment sorted source with "
+    "consistent producer() pointers that produces no initializer (SourceOK), scoping of uses by owner "
+    "(scopedGB) and distinct initializer names; every one of these is a decidable predicate evaluated by the "
+    "driver on every generated case and the share of cases satisfying them is in the histogram (hyp_*)",
+    "C18_independent is C13's fresh/closed/pure theorems instantiated at the call extract makes "
+    "(GraphView.clone, allow_outer_scope_values=False); the D153 post-processing edits only objects of the "
+    "result (C13_frame); the C18 harness compares the identity sets on the real objects (values, nodes, "
+    "graphs, shape/type/metadata objects, graph-valued Attr objects, attribute containers, sharding-spec "
+    "values); tensors and plain immutable Attr objects are shared by design",
+    "a GraphView passed as graph-like has no duplicate nodes; boundary values given by object to a view are "
+    "not values defined inside a nested graph",
     "not proved (differential only): that a properly bounded, well scoped, sorted region makes the clone "
-    "stage succeed (converse of C18_raises_of_uncovered); that a value reported for a nested graph is owned by "
-    "no graph nested deeper in it (needs well-scopedness; C18_captures_sound gives 'not owned by that graph')",
-    "ReferenceEvaluator (onnx) is an external oracle; evaluation is compared only on the evaluable op set "
-    "(Add Sub Mul Neg Abs Identity Clip Greater Less Not Where If + a two-output custom op)",
+    "stage succeed (converse of C18_raises_of_uncovered); by-name resolution order (create_value_mapping is "
+    "compared entry by entry with the real dict); the Err.initNoName branch is unreachable through the public "
+    "API (an initializer cannot be nameless since D07) and is never exercised",
+    "ReferenceEvaluator and onnx.checker are external oracles; evaluation is compared only on the evaluable op "
+    "set (Add Sub Mul Neg Abs Identity Clip Greater Less Not Where If + a two-output custom op), with two input "
+    "assignments per model and with perturbed values at boundary inputs cut in the middle (expected values from "
+    "an independent interpreter of that op set on the source objects)",
+    "exception kinds are compared via class, cause chain and the fixed part of the message (which raise "
+    "statement fired), including calls that combine several error causes",
 ]
 
 
